@@ -104,7 +104,7 @@ def shards(tier):
 
 
 def run_shard(spec, ctx):
-    run_given(M.mutated_streams(), body, ctx, ctx.pick(500, 24000))
+    run_given(M.mutated_streams(), body, ctx, ctx.pick(800, 24000))
 
 
 def replay(data, col):
